@@ -91,7 +91,10 @@ def build_state(fam, g, rng, ngates, tree, tag, register=True):
         bonds = tree if tree is not None else [(tuple(b.site0), tuple(b.site1)) for b in g.bonds()]
         for k in range(ngates):
             s0, s1 = bonds[k % len(bonds)] if rng.random() < 0.6 else bonds[k % len(bonds)][::-1]
+            before = psi.copy()
             psi.apply_gate_(fpeps.gates.decompose_nn_gate(hop_gate(fam, rng), bond=(s0, s1)))
+            if not float(psi.to_tensor().norm()) > 0:      # the gate annihilated the state: every metric of the zero state vanishes
+                psi = before
         return psi, order, [], 0
     ent, integral = pepsx.state_entries(fam, psi, order)
     ev = [{'op': 'init', 'what': tag + ' init', 'dst': 0, 'ent': ent, 'integral': integral}]
@@ -339,6 +342,8 @@ def qr_bond(psi, s0, s1, dirn):
 
 def metric_numbers(G):
     Gn = float(G.norm())
+    if np.isfinite(Gn) and Gn == 0:
+        return 0, 0            # the zero matrix is Hermitian and positive semi-definite; counted separately (see evolve events for its consequence)
     if not Gn > 0:
         return 2 ** 30, -2 ** 30
     nonherm = float((G - G.H).norm()) / Gn
@@ -373,7 +378,7 @@ def metric_events(g, psi, rng, tree, tag, heavy):
             gs = [('g', fgf.g)] if isinstance(fgf, BondMetric) else [('gL', fgf.gL), ('gR', fgf.gR)]
             for nm_, G in gs:
                 nh, sm = metric_numbers(G)
-                out.append({'op': 'metric', 'what': what + ' ' + nm_, 'nonherm': nh, 'mineig': sm})
+                out.append({'op': 'metric', 'what': what + ' ' + nm_ + (' ZERO-METRIC' if (nh, sm) == (0, 0) else ''), 'nonherm': nh, 'mineig': sm})
     return out
 
 
@@ -412,7 +417,18 @@ def evolve_events(fam, g, psi, order, src, rng, tree, tag, heavy):
         try:
             infos = fpeps.evolution_step_(env, [gate], opts_svd={'D_total': 4096, 'tol': 1e-14}, opts_post_truncation=opts_post)
         except Exception as ex:
-            out.append({'op': 'verdict', 'what': what + ' raised %s: %s' % (type(ex).__name__, str(ex)[:100]), 'verdicts': {'evolution_step_returns': False}})
+            zero = False
+            if kind.startswith('ntu'):
+                # known finding: the SVD-1 hairs of a symmetric tensor can make the whole cluster metric vanish identically; the step then fails
+                chk = exact.copy()
+                b0, b1 = (s0, s1) if chk.nn_bond_dirn(fpeps.Site(*s0), fpeps.Site(*s1)) in ('lr', 'tb') else (s1, s0)
+                dirn = chk.nn_bond_dirn(fpeps.Site(*b0), fpeps.Site(*b1))
+                Q0, Q1, _, _ = qr_bond(chk, fpeps.Site(*b0), fpeps.Site(*b1), dirn)
+                try:
+                    zero = float(fpeps.EnvNTU(chk, which=kind[4:-1]).bond_metric(Q0, Q1, fpeps.Site(*b0), fpeps.Site(*b1), dirn).g.norm()) == 0
+                except Exception:
+                    zero = False
+            out.append({'op': 'verdict', 'what': ('KF-zero-metric ' if zero else '') + what + ' raised %s: %s' % (type(ex).__name__, str(ex)[:100]), 'verdicts': {'evolution_step_returns': False}})
             continue
         info = infos[0]
         # observed state, rescaled by ONE least-squares scalar onto the exactly evolved integer vector
@@ -579,6 +595,32 @@ def cover_inner(args):
     return out
 
 
+def canonical_zero_metric():
+    """ canonical reproducer of the known finding 'SVD-1 hair in a charged sector': a stored 4x2 spin-1/2 Z2 PEPS on which one corner matrix of the NN++ cluster of
+    the bond (0,0)-(1,0) has its largest singular value exactly degenerate between the neutral and the odd sector; cut_into_hairs keeps the odd one, the hairs
+    carry charge 1, the cluster metric vanishes identically and evolution_step_ fails """
+    import os
+    import yastn.tn.fpeps as fpeps
+    fam = pepsx.Family('spin', 'Z2')
+    d = np.load(os.path.join(os.path.dirname(os.path.abspath(__file__)), 'data', 'c12_zero_metric_peps.npy'), allow_pickle=True).item()
+    psi = fpeps.Peps.from_dict(d)
+    g = psi.geometry
+    order = [tuple(s) for s in g.sites()]
+    ent, integral = pepsx.state_entries(fam, psi, order)
+    ev = [{'op': 'init', 'what': 'canonical zero-metric state spin/Z2 4x2', 'dst': 0, 'ent': ent, 'integral': integral}]
+
+    class Fixed(random.Random):
+        def sample(self, pop, k):
+            return ['ntu[NN++]'] if 'ntu[NN++]' in pop else super().sample(pop, k)
+
+        def choice(self, seq):
+            if any(isinstance(x, tuple) and x == ((0, 0), (1, 0)) for x in seq):
+                return ((0, 0), (1, 0))
+            return super().choice(seq)
+    ev += evolve_events(fam, g, psi, order, 0, Fixed(1), None, 'canonical spin/Z2 4x2', False)
+    return ev
+
+
 def main(tier, seed, replay=None):
     import json
     rep = Report('C12', tier, seed, 'model_checking')
@@ -595,7 +637,7 @@ def main(tier, seed, replay=None):
     nF = len(pepsx.FAMILIES)
     if replay:
         case = json.load(open(replay))['case']
-        jobs = [tuple(case['job'])] if case['job'][0] != 'cover' else []
+        jobs = [tuple(case['job'])] if case['job'][0] not in ('cover', 'canonical-zero-metric') else []
         cjobs = [tuple(tuple(x) if isinstance(x, list) else x for x in case['job'][1:])] if case['job'][0] == 'cover' else []
     else:
         n = 48 if tier == 'quick' else 640
@@ -613,6 +655,9 @@ def main(tier, seed, replay=None):
         cresults = [f.result() for f in fut]
     jobs = list(jobs) + [('cover',) + tuple(j) for j in cjobs]
     results = results + cresults
+    if not replay:
+        jobs.append(('canonical-zero-metric',))
+        results.append(canonical_zero_metric())
     traces = []
     for job, evs in zip(jobs, results):
         if not evs:
@@ -670,7 +715,7 @@ def main(tier, seed, replay=None):
     def cnt(sub, pool=None):
         return sum(1 for e in (pool if pool is not None else ms) for o in e['obs'] if sub in o[0])
     rep.cov['parts'].update({
-        'states': sum(1 for t in traces if t['job'][0] != 'cover'), 'state_sizes': sorted(set(len([e for e in t['ev'] if e['op'] in ('init', 'apply')][-1]['ent']) for t in traces if t['ev'][0]['op'] == 'init'))[-8:],
+        'states': sum(1 for t in traces if t['job'][0] not in ('cover', 'canonical-zero-metric')), 'state_sizes': sorted(set(len([e for e in t['ev'] if e['op'] in ('init', 'apply')][-1]['ent']) for t in traces if t['ev'][0]['op'] == 'init'))[-8:],
         'measure_events': len(ms), 'measure_events_nonzero_expectation': len(nz), 'measured_numbers': sum(len(e['obs']) for e in ms),
         'by_environment': {'boundary_mps': cnt('bmps['), 'ctm': cnt('ctm['), 'bp': cnt('bp.')},
         'by_function': {k: cnt(k) for k in ('.1site', '.1site(site)', '.nn', '.nn(bond)', '.nn(dict)', '.2site[', '.nsite', '.measure_nsite', '.measure_nsite_exact', '.measure_line', '.measure_2x2')},
@@ -679,7 +724,8 @@ def main(tier, seed, replay=None):
         'metric_events': {w: sum(1 for e in evs if e['op'] == 'metric' and ('ntu[%s]' % w) in e['what']) for w in WHICH} | {'bp': sum(1 for e in evs if e['op'] == 'metric' and ' bp ' in e['what'])},
         'evolve_events': sum(1 for e in evs if e['op'] == 'evolve'), 'cover_events': sum(1 for e in evs if e['op'] == 'cover'),
         'measure_function_raised': sum(1 for e in evs if e['op'] == 'verdict' and 'measure_function_returns' in e['verdicts']),
-        'lattices': sorted(set(t['ev'][0]['what'].split()[1] for t in traces if t['job'][0] != 'cover'))})
+        'lattices': sorted(set(t['ev'][0]['what'].split()[1] for t in traces if t['job'][0] not in ('cover', 'canonical-zero-metric'))),
+        'identically_zero_metrics': sum(1 for e in evs if e['op'] == 'metric' and 'ZERO-METRIC' in e['what'])})
     rep.sample({k: v for k, v in (nz[0] if nz else ms[0]).items() if k != 'obs'} | {'obs': (nz[0] if nz else ms[0])['obs'][:4]} if ms else None)
     rep.assumptions += ['measured numbers are compared after rounding value * <psi|psi> to the nearest Gaussian integer (must be within 1e-8 * <psi|psi> * max(1, |value|)); <psi|psi> <= 2^26',
                         'metric tolerances TolMetric = 1e-10, truncation error TolTrunc = 1e-7 (both relative) are constants of PepsMeasure.tla',
@@ -691,6 +737,9 @@ def main(tier, seed, replay=None):
 def signature(e):
     """ stable signature of a failing event: the function and the kind of object, not the seed """
     w = e['what']
+    if e['op'] == 'verdict' and w.startswith('KF-zero-metric'):
+        import re
+        return 'evolve:zero-metric:%s' % re.search(r'ntu\[([^\]]+)\]', w).group(1)
     if e['op'] == 'verdict':
         import re
         m = re.search(r'(bmps\[[^\]]*\]|ctm\[k=\d+\]|bp)\.(\w+)', w)
